@@ -182,7 +182,7 @@ func H_C15_reuse() {
 			vxrt.Assert(gjson.GetBytes(out, p).String() == phOf("P"), "C15:matcher-value-is-reusable")
 		}
 	case 1: // a placeholder that needs escaping, shorter than the values it replaces
-		ph := []string{`<"q">`, `a\b`, "t\tb", `plain`}[vxrt.Choice("placeholder", 4)]
+		ph := []string{`<"q">`, `a\b`, "t\tb", `plain`, "esc\x1b[0m", "del\x7f", "vt\v"}[vxrt.Choice("placeholder", 7)]
 		doc := `{"a":"0123456789abcdef","b":"0123456789abcdef","c":"0123456789abcdef"}`
 		if kind == 1 {
 			doc = `{"a":1234567890123456789012,"b":1234567890123456789012,"c":1234567890123456789012}`
@@ -201,4 +201,33 @@ func H_C15_reuse() {
 		vxrt.Assert(len(errs) == 0, "C15:existing-path-no-error")
 		vxrt.Assert(gjson.GetBytes(out, "$.r").String() == phOf("P") && gjson.GetBytes(out, "r").Raw == "2", "C15:only-the-target-replaced")
 	}
+}
+
+// H_C15_callerbytes: MatchJSON with a []byte input and matchers whose placeholders are shorter
+// than the values they replace (the result would fit into the caller's buffer): the caller's
+// bytes are the same afterwards, and the stored document is the masked one.
+func H_C15_callerbytes() {
+	vxrt.CI(false)
+	dir := vxrt.Dir()
+	c := WithConfig(Dir(dir), Filename("f"))
+	doc := `{"token":"0123456789abcdef","id":12345678,"name":"n"}`
+	input := []byte(doc)
+	var ms []match.JSONMatcher
+	switch vxrt.Choice("matchers", 3) {
+	case 0:
+		ms = []match.JSONMatcher{match.Any("token").Placeholder("x")}
+	case 1:
+		ms = []match.JSONMatcher{match.Any("token").Placeholder("x"), match.Custom("id", func(any) (any, error) { return 1, nil })}
+	default:
+		ms = []match.JSONMatcher{match.Type[float64]("id"), match.Any("token").Placeholder(0)}
+	}
+	t := vxNewT("TestB")
+	if vxrt.Bool("standalone") {
+		c.MatchStandaloneJSON(t, input, ms...)
+	} else {
+		c.MatchJSON(t, input, ms...)
+	}
+	t.end()
+	vxrt.Assert(len(t.errors) == 0 && len(t.logs) == 1, "C15:existing-path-no-error")
+	vxrt.Assert(string(input) == doc, "C15:caller-bytes-untouched")
 }
